@@ -12,7 +12,7 @@ const ID: &str = "C07";
 
 pub fn token_alphabet() -> Vec<&'static str> {
     vec![
-        "a", "b2", "1", "2.5", "\"/*\"", "\"//\"", "true", "+", "-", "*", "/", "%", "^", "<", ">", "=", "!", "==", "!=", "<=", ">=",
+        "a", "b2", "1", "2.5", "\"/*\"", "\"//\"", "\"c:\\\\\"", "true", "+", "-", "*", "/", "%", "^", "<", ">", "=", "!", "==", "!=", "<=", ">=",
         "&&", "||", "+=", "-=", "*=", "/=", "%=", "^=", "&&=", "||=", "(", ")", ",", ";",
     ]
 }
@@ -92,7 +92,14 @@ fn compare(b: &Base, seps: &[&str], st: &mut Stats) {
     match parse(&src) {
         Err(p) => st.violation(mk("panic", format!("panic at {}: {}", p.location, p.message))),
         Ok(r) => {
-            if r != b.base_res {
+            // equal by the library's own PartialEq and, independently of it, by the structural walk
+            // through operator()/children() (a PartialEq that says "equal" too easily must not blind the oracle)
+            let same_structure = match (&r, &b.base_res) {
+                (Ok(x), Ok(y)) => crate::refmodel::ast::node_to_nt(x) == crate::refmodel::ast::node_to_nt(y),
+                (Err(x), Err(y)) => format!("{:?}", x) == format!("{:?}", y),
+                _ => false,
+            };
+            if r != b.base_res || !same_structure {
                 st.violation(mk("separator-changes-meaning", format!("{:?}", r)));
             }
         },
